@@ -63,7 +63,9 @@ class BArr:
             return sub if not rest else self._at_sym(sub, rest)
         n = a.shape[0]
         if n == 0:
-            raise PyExc('IndexError', 'index into empty array')
+            # symbolic read of an empty array: only reachable under a false selecting condition of a closure
+            # composition (e.g. the empty pad part of a concatenate); any value is correct there
+            return cast_scalar(0, self.dtype if self.dtype != 'object' else 'float')
         vals = [(a[k] if not rest else self._at_sym(a[k], rest)) for k in range(n)]
         out = vals[n - 1]
         for k in range(n - 2, -1, -1):
